@@ -132,7 +132,13 @@ def gen_C12(rng, tier):
         n = prod(shape)
         p = Prog('c12_%s%d' % (kind, i))
         j = p.bind(kind, 'j')
-        if kind == 'mse':
+        if kind == 'mse' and i % 2 == 0:
+            # large, nearly equal prediction and target: the loss is tiny compared with the inputs
+            base = rng.choice([1e4, 1e5, 1e6, -1e6, 3.0])
+            yp = [base + rng.uniform(-1, 1) for _ in range(n)]
+            yt = [v + rng.choice([1e-3, -1e-3, 1e-2, 0.0]) for v in yp]
+            p.tag('mse-large-nearly-equal')
+        elif kind == 'mse':
             yp = [rng.choice([0.0, 1.0, -3.0, 7.0, 1e6, -1e6]) if rng.random() < 0.4 else rng.uniform(-5, 5) for _ in range(n)]
             yt = [rng.choice([0.0, 1.0, 1e6]) if rng.random() < 0.3 else rng.uniform(-5, 5) for _ in range(n)]
         else:
